@@ -27,6 +27,7 @@ type BAtom struct {
 	Src    *Sym
 	SrcPos bool
 	L      *Lin // for <= atoms: the canonical linear form (L <= 0)
+	EqL    *Lin // for == atoms: the canonical linear form (EqL == 0)
 	Key     string
 	EnumSym string // non-empty for `sym == const` atoms
 	EnumVal int64
@@ -199,7 +200,7 @@ func atomBF(s *Sym, pos bool) *BF {
 			key = n.String()
 			l = n
 		}
-		at := &BAtom{Key: key + " == 0", Loads: atomLoads(a)}
+		at := &BAtom{Key: key + " == 0", Loads: atomLoads(a), EqL: l}
 		if len(l.T) == 1 {
 			for k, c := range l.T {
 				if c == 1 || c == -1 {
@@ -766,6 +767,9 @@ func truthTable(fs []*BF, fn func(env map[string]bool) bool) (ok bool, witness m
 			for i, k := range bools {
 				env[k] = mask&(1<<i) != 0
 			}
+			if !arithConsistent(am, env) {
+				continue
+			}
 			if !fn(env) {
 				w := map[string]bool{}
 				for k, v := range env {
@@ -956,4 +960,123 @@ func projectBF(f *BF, keep func(*BAtom) bool) *BF {
 		cur = next
 	}
 	return bfOr(cur...)
+}
+
+
+// linDirection splits a linear form into a sign-normalised term part (as a
+// key), the sign applied and the constant: L = sign*dir + k.
+func linDirection(l *Lin) (key string, sign int64, k int64) {
+	t := newLin()
+	for kk, v := range l.T {
+		t.T[kk] = v
+		t.S[kk] = l.S[kk]
+	}
+	n := newLin()
+	n.add(t, -1)
+	if n.String() < t.String() {
+		return n.String(), -1, l.K
+	}
+	return t.String(), 1, l.K
+}
+
+// arithConsistent rejects truth assignments that no integer valuation can
+// realise, for atoms that compare the same linear expression with constants
+// (x == c, x <= c): e.g. `t == o` together with `t > o`.
+func arithConsistent(am map[string]*BAtom, env map[string]bool) bool {
+	type bound struct {
+		lo, hi       int64
+		hasLo, hasHi bool
+		eq           []int64
+		ne           []int64
+	}
+	groups := map[string]*bound{}
+	get := func(k string) *bound {
+		if groups[k] == nil {
+			groups[k] = &bound{}
+		}
+		return groups[k]
+	}
+	for key, a := range am {
+		val := env[key]
+		switch {
+		case a.L != nil && len(a.L.T) > 0:
+			dir, sign, k := linDirection(a.L)
+			b := get(dir)
+			// sign*x + k <= 0 (true) or >= 1 (false)
+			if (sign == 1) == val {
+				// upper bound
+				var hi int64
+				if sign == 1 {
+					hi = -k // x <= -k
+				} else {
+					hi = k - 1 // -x + k >= 1  <=> x <= k-1
+				}
+				if !b.hasHi || hi < b.hi {
+					b.hi, b.hasHi = hi, true
+				}
+			} else {
+				var lo int64
+				if sign == 1 {
+					lo = 1 - k // x + k >= 1
+				} else {
+					lo = k // -x + k <= 0 <=> x >= k
+				}
+				if !b.hasLo || lo > b.lo {
+					b.lo, b.hasLo = lo, true
+				}
+			}
+		case a.EqL != nil && len(a.EqL.T) > 0:
+			dir, sign, k := linDirection(a.EqL)
+			b := get(dir)
+			c := -k * sign // sign*x + k == 0
+			if val {
+				b.eq = append(b.eq, c)
+			} else {
+				b.ne = append(b.ne, c)
+			}
+		}
+	}
+	for _, b := range groups {
+		for i := 1; i < len(b.eq); i++ {
+			if b.eq[i] != b.eq[0] {
+				return false
+			}
+		}
+		if len(b.eq) > 0 {
+			c := b.eq[0]
+			if b.hasLo && c < b.lo || b.hasHi && c > b.hi {
+				return false
+			}
+			for _, n := range b.ne {
+				if n == c {
+					return false
+				}
+			}
+			continue
+		}
+		if b.hasLo && b.hasHi {
+			if b.lo > b.hi {
+				return false
+			}
+			// all points excluded?
+			if b.hi-b.lo < 8 {
+				free := false
+				for x := b.lo; x <= b.hi; x++ {
+					ex := false
+					for _, n := range b.ne {
+						if n == x {
+							ex = true
+						}
+					}
+					if !ex {
+						free = true
+					}
+				}
+				if !free {
+					return false
+				}
+			}
+		}
+	}
+	return true
 }
